@@ -87,8 +87,8 @@ Algorithms == {
   A("householder.ApplyRight", <<"beta", "nu">>, <<"A", "t1", "t2">>, <<>>,                   <<>>,                               NoIS, ""),
   (* optimisers and root finders: "optimizers do not move the starting point they were given" *)
   Optimizer("bfgs.Run",            <<"x0", "H0">>,  <<"Hessian", "Hook", "Constraints", "MaxIterations">>),
-  Optimizer("rprop.Run",           <<"x0", "eta">>, HCM),
-  Optimizer("rprop.RunGradient",   <<"x0", "eta">>, HCM),
+  Optimizer("rprop.Run",           <<"x0", "eta">>, HCM \o <<"EtaSwapped">>),   \* EtaSwapped: the two step-size factors in the
+  Optimizer("rprop.RunGradient",   <<"x0", "eta">>, HCM \o <<"EtaSwapped">>),   \* unusual but admissible order (decrease, increase)
   Optimizer("adam.Run",            <<"x0">>,        HCM),
   Optimizer("adam.RunGradient",    <<"x0">>,        HCM),
   Optimizer("gradientDescent.Run", <<"x0">>,        <<"Hook">>),
@@ -152,21 +152,27 @@ Disjoint(e, mode) ==
   ELSE <<>>
 
 OptVals(e) == {ov \in [{e.opts[i] : i \in 1..Len(e.opts)} -> BOOLEAN] : ValidOpts(e, ov)}
-Case(e, op, m, t, n, sr, sa, sb, ov) ==
-  [entry |-> e.name, op |-> op, mode |-> m, elem |-> t, n |-> n, sr |-> sr, sa |-> sa, sb |-> sb,
+(* magnitude class of the input values: the frame condition is bit-for-bit, also at the boundary of  *)
+(* the floating-point range (entries scaled by 1e150, by 1e-150, or alternately by both)             *)
+OptimizerNames == {"bfgs.Run", "rprop.Run", "rprop.RunGradient", "adam.Run", "adam.RunGradient", "gradientDescent.Run",
+                   "newton.RunRoot", "newton.RunCrit", "newton.RunMin", "saga.Run", "blahut.Run"}
+Mags(e, n) == IF e.name \in OptimizerNames \/ n # 2 THEN {"1"} ELSE {"1", "1e150", "1e-150", "mixed"}
+Case(e, op, m, t, n, sr, sa, sb, ov, mag) ==
+  [entry |-> e.name, op |-> op, mode |-> m, elem |-> t, n |-> n, sr |-> sr, sa |-> sa, sb |-> sb, mag |-> mag,
    opts |-> [i \in 1..Len(e.opts) |-> [o |-> e.opts[i], v |-> ov[e.opts[i]]]],
    keep |-> MustKeep(e, m), may |-> MayModify(e, m), disjoint |-> Disjoint(e, m)]
 
-AlgCases == UNION {{Case(e, "", m, t, n, "-", "-", "-", ov) :
-                      m \in e.modes, t \in {"float64", "real64"}, n \in Sizes, ov \in OptVals(e)} : e \in Algorithms}
+AlgCases == UNION {UNION {{Case(e, "", m, t, n, "-", "-", "-", ov, mag) :
+                      m \in e.modes, t \in {"float64", "real64"}, ov \in OptVals(e), mag \in Mags(e, n)} : n \in Sizes}
+                   : e \in Algorithms}
 OpCasesOf(name, ops, srs) ==
-  {Case(OpEntry(name), op, "none", t, 0, sr, sa, sb, <<>>) :
+  {Case(OpEntry(name), op, "none", t, 0, sr, sa, sb, <<>>, "1") :
      op \in ops, t \in {"float64", "real64", "int"}, sr \in srs, sa \in Storages, sb \in Storages}
 OpCases == OpCasesOf("vector.op", VecOps, Storages) \cup OpCasesOf("matrix.op", MatOps, Storages)
            \cup OpCasesOf("scalar.op", ScaOps, {"-"})
-DistCases == {Case(e, d, "none", "-", 0, "-", "-", "-", <<>>) :
+DistCases == {Case(e, d, "none", "-", 0, "-", "-", "-", <<>>, "1") :
                 e \in DistEntries, d \in ScalarDists \cup VectorDists \cup MatrixDists}
-             \cup {Case(e, d, "none", "-", 0, "-", "-", "-", <<>>) : e \in EstEntries, d \in Estimators}
+             \cup {Case(e, d, "none", "-", 0, "-", "-", "-", <<>>, "1") : e \in EstEntries, d \in Estimators}
 Cases == AlgCases \cup OpCases \cup DistCases
 
 (* sanity of the table itself *)
